@@ -97,7 +97,10 @@ def nested_formula(rng, nts):
     s1, s2 = rng.choice(leafy), rng.choice(leafy)
     q1, q2 = rng.choice(["any", "all"]), rng.choice(["any", "any", "all"])
     cmp_ = rng.choice(["==", "!=", "<", ">"])
-    k = rng.randrange(4)
+    k = rng.randrange(5)
+    if k == 4:      # a disjunction / conjunction of constraints under an identifier-bound quantifier
+        l1, l2 = rng.sample(['"a"', '"1"', '"0"', '"b"', '"p"', '"2"'], 2)
+        return f"{q1}(str(x) == {l1} {rng.choice(['or', 'and'])} str(x) {cmp_} {l2} for x in *{s2})"
     if k == 0:      # both variables bound as Python identifiers
         return f"{q1}({q2}(str(y) {cmp_} str(x) for y in *{s1}) for x in *{s2})"
     if k == 1:      # outer identifier, inner nonterminal-bound
